@@ -676,3 +676,61 @@ Qed.
 Theorem maxep_stops_iff nt b total neps :
   snd (dispatch (Step nt) (MaxEp b total neps)) = false <-> total <= neps + ndones_of b.
 Proof. cbn [dispatchp snd]. rewrite Z.ltb_ge. reflexivity. Qed.
+
+(* ------------------------------------------------------------------ enough fuel: the loops are not cut short *)
+(* with at least n - steps units of fuel an on-policy rollout (or an off-policy one with train_freq in steps) is never cut by the fuel:
+   the exhaustion flag is untouched and, unless a Step returned False, exactly n - steps further env steps are taken *)
+Lemma rollout_enough_fuel ne n (onp : bool) : forall fuel steps eps s s' cont tr,
+  0 <= steps <= n -> (Z.to_nat (n - steps) <= fuel)%nat ->
+  rollout fuel ne (if onp then OnPol n else OffStep n) steps eps s = (s', cont, tr) ->
+  d_exh s' = d_exh s /\
+  (cont = true -> d_stamp s' = d_stamp s + (n - steps) /\ d_nt s' = d_nt s + (n - steps) * ne).
+Proof.
+  induction fuel as [|f IH]; intros steps eps s s' cont tr Hs Hf H; cbn [rollout] in H.
+  - assert (E : more (if onp then OnPol n else OffStep n) steps eps = false) by (destruct onp; cbn; lia).
+    rewrite E in H. inv H. cbn. split; [reflexivity|]. intros _. assert (Z0 : n - steps = 0) by lia. rewrite Z0. split; lia.
+  - destruct (more (if onp then OnPol n else OffStep n) steps eps) eqn:M.
+    + assert (Hlt : steps < n) by (destruct onp; cbn in M; lia).
+      destruct (snd (dispatch (Step (d_nt s + ne)) (fst (dispatch (UL (d_stamp s + 1) (hd 0 (d_dones s))) (d_cb s))))) eqn:R.
+      * match type of H with context [rollout ?a ?b ?c ?d ?e ?g] => destruct (rollout a b c d e g) as [[s2 c2] tr2] eqn:E end.
+        inv H. apply IH in E; [|lia|lia]. cbn [d_exh d_stamp d_nt] in E. destruct E as [A B].
+        split; [exact A|]. intros C. destruct (B C) as [B1 B2]. split; [lia | rewrite B2; ring].
+      * inv H. cbn. split; [reflexivity | discriminate].
+    + inv H. cbn. assert (Z0 : n - steps = 0) by (destruct onp; cbn in M; lia). rewrite Z0. split; [reflexivity|]. intros _. split; lia.
+Qed.
+
+(* the learn() loop: with rollouts of n >= 1 steps, n_envs >= 1, rollout fuel >= n and loop fuel >= total - num_timesteps the run is
+   not cut by the fuel, and unless some Step returned False it continues until num_timesteps >= total *)
+Lemma learn_loop_enough_fuel rf ne n (onp : bool) total : 1 <= n -> 1 <= ne -> (Z.to_nat n <= rf)%nat ->
+  forall fuel s s' tr, (Z.to_nat (total - d_nt s) <= fuel)%nat ->
+  learn_loop fuel rf ne (if onp then OnPol n else OffStep n) total s = (s', tr) ->
+  d_exh s' = d_exh s /\ ((forall e, ~ In (e, false) tr) -> total <= d_nt s').
+Proof.
+  intros Hn Hne Hrf. induction fuel as [|f IH]; intros s s' tr Hf H; cbn [learn_loop] in H.
+  - destruct (d_nt s <? total) eqn:L; [lia|]. inv H. split; [reflexivity | intros _; lia].
+  - destruct (d_nt s <? total) eqn:L; [|inv H; split; [reflexivity | intros _; lia]].
+    match type of H with context [rollout ?a ?b ?c ?d ?e ?g] => destruct (rollout a b c d e g) as [[s2 c2] tr2] eqn:E end.
+    pose proof E as G. apply rollout_grammar in G. cbn [d_nt d_stamp] in G. destruct G as (pre & nt' & st' & _ & _ & Gf).
+    apply rollout_enough_fuel in E; [|lia|lia]. cbn [d_exh d_stamp d_nt] in E. destruct E as [A B].
+    destruct c2.
+    + destruct (learn_loop f rf ne (if onp then OnPol n else OffStep n) total s2) as [s3 tr3] eqn:E3. inv H.
+      destruct (B eq_refl) as [_ B2].
+      apply IH in E3; [|nia]. destruct E3 as [A3 C3]. split; [congruence|].
+      intros NF. apply C3. intros e I. apply (NF e). right. apply in_or_app. right. exact I.
+    + inv H. split; [exact A|]. intros NF. exfalso. destruct (Gf eq_refl) as (nd & -> & _).
+      apply (NF (Step (nt' + ne))). right. apply in_or_app. right. right. left. reflexivity.
+Qed.
+
+Theorem learn_enough_fuel fuel rf ne n (onp : bool) total reset dones s s' tr :
+  1 <= n -> 1 <= ne -> (Z.to_nat n <= rf)%nat ->
+  (Z.to_nat (snd (setup reset (d_nt s) total) - fst (setup reset (d_nt s) total)) <= fuel)%nat ->
+  learn fuel rf ne (if onp then OnPol n else OffStep n) total reset dones s = (s', tr) ->
+  d_exh s' = d_exh s /\
+  ((forall e, ~ In (e, false) tr) -> snd (setup reset (d_nt s) total) <= d_nt s').
+Proof.
+  intros Hn Hne Hrf Hf. unfold learn. destruct (setup reset (d_nt s) total) as [nt0 total'] eqn:S. cbn [fst snd] in Hf.
+  match goal with |- context [learn_loop ?a ?b ?c ?d ?e ?g] => destruct (learn_loop a b c d e g) as [s1 tr1] eqn:E end.
+  intros H. inv H. apply (learn_loop_enough_fuel rf ne n onp total' Hn Hne Hrf) in E; [|exact Hf].
+  cbn [d_exh d_nt] in *. destruct E as [A B]. split; [exact A|].
+  intros NF. apply B. intros e I. apply (NF e). right. apply in_or_app. left. exact I.
+Qed.
